@@ -11,6 +11,33 @@ thread_local! {
     static PROBES: RefCell<[u64; PROBE_COUNT]> = const { RefCell::new([0; PROBE_COUNT]) };
 }
 
+thread_local! {
+    static CHARGES: RefCell<Option<Vec<usize>>> = const { RefCell::new(None) };
+}
+
+/// Starts recording, on the current thread, the accounted usage after every limiter charge.
+pub fn charges_start() {
+    CHARGES.with(|c| *c.borrow_mut() = Some(Vec::new()));
+}
+
+/// Stops recording and returns the recorded usage values.
+#[must_use]
+pub fn charges_take() -> Vec<usize> {
+    CHARGES.with(|c| c.borrow_mut().take().unwrap_or_default())
+}
+
+/// Records one limiter charge (no-op unless recording was started on this thread).
+#[inline]
+pub fn charge(usage_after: usize) {
+    CHARGES.with(|c| {
+        if let Some(v) = c.borrow_mut().as_mut() {
+            if v.len() < 1_000_000 {
+                v.push(usage_after);
+            }
+        }
+    });
+}
+
 /// Bumps probe `id`.
 #[inline]
 pub fn hit(id: usize) {
